@@ -16,7 +16,13 @@ META = {
             "successive derivatives (Coquelicot is_derive) of the position polynomial; a_poly_eval_ = Horner value = explicit "
             "sum for every length, evar = eval on the reversed list, swap = reversal (involution). Tie: bit-exact binary64 "
             "execution of the same Gallina terms vs the C on generated inputs. PARTIAL: the floating-point rounding error at "
-            "the end time is measured against exact rationals, not proved.",
+            "the end time is measured against exact rationals, not proved. ROUNDING (C15_horner_rounding_bound*, "
+            "C15_evar_/poly_wrappers_rounding_bound): for every coefficient count n+1 and all real c, x, the same Horner term "
+            "with each operation followed by a rounding rnd differs from its exact value by at most ((1+eps)^(2n)-1) sum|c_i||x|^i "
+            "+ 2 eta (1+eps)^(2n) sum_{j<n}|x|^j (<= gamma_2n form when 2n eps<1), proved in the standard rounding model "
+            "|rnd x - x| <= eps|x| + eta with gradual underflow, overflow excluded; IEEE binary64 round-to-nearest-even satisfies "
+            "that model with eps=2^-53, eta=2^-1075 by Flocq (C15_binary64_satisfies_model) - the rounding of the generators' "
+            "coefficient formulas and the step from the rounded-real term to the C's binary64 run remain unproved.",
     "note": "Trusted: Coq kernel/vm_compute (primitive floats), the standard real-number axioms (sig_forall_dec, sig_not_dec, "
             "functional_extensionality_dep, classic via Coquelicot) as listed by Print Assumptions; the 'same term, different "
             "NumOps instance' argument between R and binary64; the hand transcription coq/C15/PolyDefs.v, validated bit for bit "
